@@ -10,11 +10,11 @@ Theorem manifest_digest :
          (body : list N) (sg : nat) (info : cb21_info),
     k_v21 c = true -> wf_input x -> m_cert x = Some (CertV21 body sg) -> cb_v21_ok (rk_rkth keys) body info ->
     r_cb cfg = CbV21 -> r_hmac cfg = false -> r_mcrc cfg = has c MixinManifestCrc -> In (c_type c) (r_types cfg) ->
-    tz_ok (r_tzsize cfg) x -> (0 <= m_digest x <= 3)%Z -> (m_digest x = 0 \/ m_digest x = c2_alg info - 1)%Z ->
+    tz_ok (r_tzsize cfg) x -> (0 <= m_digest x <= 3)%Z ->
     sg = (2 * klen_of info)%nat -> (forall m, length (sign m) = sg) ->
-    export_mbi (real_crypto sign) c x = Ok img ->
+    export_c02 (real_crypto sign) c x = Ok img ->
     exists msg, img = msg ++ sign msg ++
                       (if has c MixinManifestDigest && negb (m_digest x =? 0)%Z then hash_by (m_digest x) msg else []) /\
       rom_mbi cfg keys img = Some {| ro_plain := msg; ro_msg := msg; ro_obl := v21_obl info msg (sign msg) |}.
-Proof. exact v21_accept_l. Qed.
+Proof. exact v21_accept_c02_l. Qed.
 Print Assumptions manifest_digest.
